@@ -1,7 +1,9 @@
 (* C01 -- non-vacuity: concrete inputs meet the hypotheses of each theorem, and the model
    computes what the code is known to compute on small cases. *)
 From Coq Require Import List Arith Bool Lia ZArith QArith.
-From Verif.C01 Require Import Model Proofs.
+From Coq Require Import String.
+From Verif.C06 Require Import Model.
+From Verif.C01 Require Import Model Proofs Kernel.
 Import ListNotations.
 Close Scope Q_scope. Open Scope nat_scope.
 
@@ -76,3 +78,74 @@ Proof. split; [vm_compute; reflexivity|]. split; [repeat constructor|vm_compute;
 (* gauss_rule with the 2-point reference rule (exact rational stand-in nodes +-1/2, weights 1) on (1, 4) *)
 Example ex_gauss : Qeq (qsum (map snd (gauss_interval [((-1 # 2)%Q, (1 # 1)%Q); ((1 # 2)%Q, (1 # 1)%Q)] (1 # 1) (4 # 1)))) (3 # 1).
 Proof. vm_compute. reflexivity. Qed.
+
+(* ---- the kernel model (Kernel.v) on a concrete scheduled forest over Z -------------------------------
+   input field f (global, fields[0]), parameter c (constants[0]);
+   kernel-local variables  t = f * gw0   and   w = (t + c, t * t)   (a vector);
+   integrands  w[0] * u_x * v   and   -(w[1]) * u * v.                                              *)
+Open Scope string_scope.
+Definition zexpr := expr Z.
+Definition ex_lay (n : string) (k : nat) : loc :=
+  if String.eqb n "f" then LField k else if String.eqb n "c" then LConst k else LLocal n k.
+Definition ex_shp (n : string) : list nat := if String.eqb n "w" then [2] else [].
+Definition ex_sz (n : string) : nat := if String.eqb n "w" then 2 else 1.
+Definition vr (n : string) (Ix : list nat) : zexpr := VR n Ix [0] false.
+Definition ex_ds : list (def Z) :=
+  [("t", TS (Op OMul (vr "f" []) (GW 0)));
+   ("w", TLV [Op OAdd (vr "t" []) (vr "c" []); Op OMul (vr "t" []) (vr "t" [])])].
+Definition ex_es : list zexpr :=
+  [Op OMul (Op OMul (vr "w" [0]) (PD "u" None [1] false)) (PD "v" None [0] false);
+   Op OMul (Op OMul (Neg (vr "w" [1])) (PD "u" None [0] false)) (PD "v" None [0] false)].
+Definition ex_known := ["f"; "c"].
+Close Scope string_scope.
+
+Example ex_compiles : exists cs, omap (compile Z ex_lay ex_shp) ex_es = Some cs.
+Proof. eexists. vm_compute. reflexivity. Qed.
+
+Example ex_wf_prog : wf_prog Z ex_lay ex_shp ex_sz ex_known ex_ds.
+Proof.
+  simpl. split; [|split].
+  - eexists; eexists. split; [vm_compute; reflexivity|]. split; [vm_compute; reflexivity|].
+    split; [repeat (apply Forall_cons); try apply Forall_nil; vm_compute; repeat split; auto 10 | split; reflexivity].
+  - intros [H|[H|[]]]; discriminate.
+  - split; [|split].
+    + eexists; eexists. split; [vm_compute; reflexivity|]. split; [vm_compute; reflexivity|].
+      split; [repeat (apply Forall_cons); try apply Forall_nil; vm_compute; repeat split; auto 10 | split; reflexivity].
+    + intros [H|[H|[H|[]]]]; discriminate.
+    + exact I.
+Qed.
+
+Example ex_integrands_wf : Forall (wfe Z ex_shp ex_sz (names_after Z ex_known ex_ds)) ex_es.
+Proof. repeat (apply Forall_cons); try apply Forall_nil; vm_compute; repeat split; auto 10. Qed.
+
+Example ex_lay_inj : forall n k n' k', ex_lay n k = ex_lay n' k' -> n = n' /\ k = k'.
+Proof.
+  intros n k n' k'. unfold ex_lay.
+  destruct (String.eqb_spec n "f"); destruct (String.eqb_spec n' "f");
+  destruct (String.eqb_spec n "c"); destruct (String.eqb_spec n' "c"); intros H; inversion H; subst; auto; congruence.
+Qed.
+
+(* one node: f = 3, c = 5, gw0 = 2, u_x = 7, u = 11, v = 13:  t = 6, w = (11, 36);
+   the emitted program and the C06 evaluator both give [11*7*13; -36*11*13] *)
+Definition ex_nc : nctx Z := mkN Z (fun n D => if String.eqb n "u" then (if list_eqb D [1%nat] then 7%Z else 11%Z) else 13%Z)
+                                   (fun _ => 2%Z) (fun _ x => x).
+Definition ex_st : store Z := fun l => match l with LField 0 => 3%Z | LConst 0 => 5%Z | _ => 0%Z end.
+Definition ex_en : env Z := mkEnv (fun n _ D _ => pdv Z ex_nc n D)
+  (fun n _ _ _ => if String.eqb n "f" then 3%Z else if String.eqb n "c" then 5%Z else 0%Z)
+  (fun _ => 2%Z) 0%Z 0%Z (fun _ x => x).
+Example ex_kernel_values :
+  match omap (compile Z ex_lay ex_shp) ex_es with
+  | Some cs => map (ceval Z Z.add Z.mul Z.sub Z.div Z.opp ex_nc
+                      (run_defs Z Z.add Z.mul Z.sub Z.div Z.opp ex_lay ex_shp ex_nc ex_st ex_ds)) cs
+  | None => [] end = [1001%Z; (-5148)%Z]
+  /\ map (eval Z Z.add Z.mul Z.sub Z.div Z.opp (eval_defs Z 0%Z Z.add Z.mul Z.sub Z.div Z.opp ex_en ex_ds)) ex_es
+     = [1001%Z; (-5148)%Z].
+Proof. vm_compute. auto. Qed.
+Example ex_agree : Agree Z ex_lay ex_shp ex_sz ex_st ex_en ex_known /\ Ctx Z ex_nc ex_en.
+Proof.
+  split.
+  - intros n Ix D p [H|[H|[]]] Hlt _; subst n; vm_compute in Hlt; vm_compute.
+    + destruct Ix; [reflexivity | reflexivity].
+    + destruct Ix; reflexivity.
+  - repeat split.
+Qed.
